@@ -102,11 +102,16 @@ pub fn expand_backslash_escapes(
             '\"' if matches!(mode, EscapeExpansionMode::AnsiCQuotes) => result.push(b'\"'),
             '?' if matches!(mode, EscapeExpansionMode::AnsiCQuotes) => result.push(b'?'),
             '0' => {
-                // Consume 0-3 valid octal chars
+                // Consume 0-3 valid octal chars (echo) or 0-2 (ANSI-C quotes, where the
+                // leading 0 counts as one of the at most 3 digits)
+                let max_octal_chars = match mode {
+                    EscapeExpansionMode::EchoBuiltin => 3,
+                    EscapeExpansionMode::AnsiCQuotes => 2,
+                };
                 let mut taken_so_far = 0;
                 let mut octal_chars: String = it
                     .take_while_ref(|c| {
-                        if taken_so_far < 3 && matches!(*c, '0'..='7') {
+                        if taken_so_far < max_octal_chars && matches!(*c, '0'..='7') {
                             taken_so_far += 1;
                             true
                         } else {
